@@ -580,7 +580,7 @@ func (fc *flowCtx) errPropagatedExcept(fn *ssa.Function, call ssa.Instruction, e
 			continue
 		}
 		for _, c := range trueCmps(fact{iff.Cond, p.Succs[0] == b}) {
-			if c.Op == token.NEQ && c.Y != nil && ((sameValue(c.X, e) && isNilConst(c.Y)) || (sameValue(c.Y, e) && isNilConst(c.X))) {
+			if c.Op == token.NEQ && c.Y != nil && (((sameValue(c.X, e) || phiIncludes(c.X, e)) && isNilConst(c.Y)) || ((sameValue(c.Y, e) || phiIncludes(c.Y, e)) && isNilConst(c.X))) {
 				errBlocks = append(errBlocks, b)
 			}
 		}
